@@ -410,6 +410,9 @@ func c14AddrOrigins(c *Ctx, fn *ssa.Function, v ssa.Value, okSrc map[string]bool
 		case "param":
 			// an unexported helper all of whose callers are known: what the callers pass
 			par, _ := o.V.(*ssa.Parameter)
+			if par != nil && par.Parent() != nil {
+				fn = par.Parent() // (a closure sees the parameter of the function around it as a captured variable)
+			}
 			sites, escapes := c.callSitesOf(fn)
 			if par != nil && !token.IsExported(fn.Name()) && !escapes && len(sites) > 0 && depth < 3 {
 				idx := paramIndex(fn, par)
